@@ -158,7 +158,8 @@ CombBasis(nmo, na, nb) ==
 \* bit reversal: documented integer (qubit 0 least significant) -> Pauli!OpMatrix index (qubit 0 most significant)
 CombRevIndex(x0, n) == SumSeq(TLCEval([q \in 1..n |-> BitAt(x0, n - q, n) * Pow2(n - q)]), n)
 
-\* entry-wise agreement of the leading block (documented basis), up to transposition (real symmetric input)
+Transposed(A) == TLCEval([c \in 1..Len(A) |-> TLCEval([r \in 1..Len(A) |-> A[r][c]])])
+\* entry-wise agreement of the leading block (documented basis)
 EntrywiseEqual(A, img, nq, rev) ==
   \A c \in 1..Len(A) : \A r \in 1..Len(A) :
      LET x == IF rev THEN CombRevIndex(r - 1, nq) ELSE r - 1
